@@ -136,6 +136,9 @@ def run_paths(ctx, fn, env0=None, this_names=("this",), include_exc=False, limit
             bind(env, t, mk_eval(e2).ev(st.value.elt), ev)
         return True
 
+    def dict_update(st, env, ev):
+        return dict_update_stmt(st, env, ev)
+
     def step(node, env, res):
         st = node.ast
         if node.kind == "test" and st is not None and hasattr(st, "test"):
@@ -145,6 +148,8 @@ def run_paths(ctx, fn, env0=None, this_names=("this",), include_exc=False, limit
         ev = mk_eval(env)
         if node.kind == "stmt":
             if comp_unpack(st, env, ev):
+                pass
+            elif dict_update(st, env, ev):
                 pass
             elif isinstance(st, ast.Assign):
                 if isinstance(st.value, ast.Tuple) and len(st.targets) == 1 and isinstance(st.targets[0], ast.Tuple) \
@@ -158,6 +163,8 @@ def run_paths(ctx, fn, env0=None, this_names=("this",), include_exc=False, limit
                         bind(env, t, v, ev)
             elif isinstance(st, ast.AnnAssign) and st.value is not None:
                 bind(env, st.target, ev.ev(st.value), ev)
+            elif dict_update(st, env, ev):
+                pass
             elif isinstance(st, ast.AugAssign):
                 cur = ev.ev(st.target) if not isinstance(st.target, ast.Subscript) else None
                 if cur is not None:
@@ -247,6 +254,43 @@ def run_paths(ctx, fn, env0=None, this_names=("this",), include_exc=False, limit
 
     dfs(cfg.entry, dict(env0 or {}), PathResult(), frozenset(), frozenset())
     return results
+
+
+def dict_update_stmt(st, env, ev):
+    """`d.update(k=v, ...)` / `d.update({...})` / `d["k"] = v` on a local whose value is a dict-literal term: the term is updated.
+    True when handled."""
+    from .terms import dict_parts, dict_merge
+    if isinstance(st, ast.Expr) and isinstance(st.value, ast.Call) and isinstance(st.value.func, ast.Attribute) and st.value.func.attr == "update" \
+            and isinstance(st.value.func.value, ast.Name) and st.value.func.value.id in env and len(st.value.args) <= 1:
+        name = st.value.func.value.id
+        cur = env[name].key() if hasattr(env[name], "key") else None
+        if cur is not None and cur.startswith("dcomp(") and cur.endswith(")"):
+            cur = "{**" + cur + "}"  # a dict comprehension is a dict
+        if cur is None or dict_parts(cur) is None:
+            return False
+        new = cur
+        if st.value.args:
+            at = ev.ev(st.value.args[0]).key()
+            ap = dict_parts(at)
+            new = dict_merge(new, *ap) if ap is not None else dict_merge(new, [at], {})
+        kws = {}
+        for k in st.value.keywords:
+            if k.arg is None:
+                return False
+            kws[k.arg] = ev.ev(k.value).key()
+        new = dict_merge(new, [], kws)
+        env[name] = Term.atom(new)
+        return True
+    if isinstance(st, ast.Assign) and len(st.targets) == 1 and isinstance(st.targets[0], ast.Subscript) and isinstance(st.targets[0].value, ast.Name) \
+            and st.targets[0].value.id in env and isinstance(st.targets[0].slice, ast.Constant) and isinstance(st.targets[0].slice.value, str) \
+            and st.targets[0].slice.value.isidentifier():
+        name = st.targets[0].value.id
+        cur = env[name].key() if hasattr(env[name], "key") else None
+        if cur is None or dict_parts(cur) is None:
+            return False
+        env[name] = Term.atom(dict_merge(cur, [], {st.targets[0].slice.value: ev.ev(st.value).key()}))
+        return True
+    return False
 
 
 _TRIVIAL = {"Is(None,None)": True, "IsNot(None,None)": False, "truthy(None)": False, "truthy(0)": False}
